@@ -30,6 +30,10 @@ def check_phase(N, ext, kinds, rises, decays):
     troughs = np.array([p for p, k in zip(ext, kinds) if k == 'T'], dtype=int)
     # the signal is used for its length only: its dtype must not matter
     sig = np.zeros(N, dtype=(np.float64, np.float32, np.int16)[(N + len(ext) + int(ext[0])) % 3])
+    if sig.dtype == np.float64 and N >= 4 and (N + len(ext)) % 2 == 0:
+        sig[N // 2] = np.nan          # ... nor do its values: missing samples (NaN), an overflow (inf) inside the span
+        sig[N // 3] = np.inf
+        sig[int(ext[0])] = np.nan
     try:
         pha = extrema_interpolated_phase(sig, peaks, troughs,
                                          None if rises is None else np.array(rises, dtype=int),
@@ -137,8 +141,13 @@ class Placements(Space):
 
 def eval_word(case):
     from bycycle.cyclepoints import find_extrema, find_zerox
+    drift = 0.
+    if not isinstance(case[-1], str):
+        case, drift = case[:-1], case[-1]
     w = ''.join(case)
     sig = S.word_signal(w)
+    if drift:
+        sig = sig + drift * np.arange(len(sig))      # riding on a slope steeper than the rhythm: inverted flanks
     nev, outs = 0, []
     for b in (0, 1, 5):
         for fe in ('peak', 'trough', None):
@@ -163,7 +172,7 @@ def eval_word(case):
                 outs.append(hash(pha.tobytes()))
     if not nev:
         return SKIP('no admissible extrema')
-    return OK(outcome=(w, tuple(outs)), nontrivial=True, evals=nev)
+    return OK(outcome=(w, drift, tuple(outs)), nontrivial=True, evals=nev)
 
 
 def eval_segments(case):
@@ -216,7 +225,9 @@ def spaces(tier, seed):
                           describe='66000-sample recording (longer than 2**16), a cyclepoint every 25 samples, all 100 grid alignments x with / without midpoints')]
     if tier == 'quick':
         return [Placements(8, True), Placements(10, True), Placements(14, False),
-                ProductSpace('words-W(6,5)', S.word_dims(S.alphabet(6), 5), eval_word, bounds={'letters': S.alphabet(6)})] + scale
+                ProductSpace('words-W(6,5)', S.word_dims(S.alphabet(6), 5), eval_word, bounds={'letters': S.alphabet(6)}),
+                ProductSpace('words-W(4,5)xdrift', S.word_dims(S.alphabet(4), 5) + [[-2.5, 2.5, -1.25]], eval_word,
+                             describe='words riding on a steep slope (inverted flanks): midpoints from find_zerox')] + scale
     al = S.alphabet(8, seed, extra=2)
     return scale + [Placements(8, True), Placements(10, True), Placements(12, True), Placements(14, False), Placements(18, False),
             ProductSpace('words-W(10,5)', S.word_dims(al, 5), eval_word, bounds={'letters': al}),
